@@ -68,3 +68,48 @@ package mail
 //@ func mail.Client.DialAndSendWithContext
 //@   requires[C19:wf] c != nil
 //@   ensures[C19:noleak] world.liveConns == old(world.liveConns)
+
+// ---------------------------------------------------------------------------
+// C17  Every network operation is bounded by the configured timeout
+//
+// cdial(client): what a client returned by a successful dial satisfies; Send and
+// Reset rely on it for c.smtpClient (history assumption, listed in the evidence).
+//@ pred cdial(client *smtp.Client) = clink(client) && client.didHello
+//@ func mail.Client.tls
+//@   requires[C17:armed] carm(client) && cdial(client) && isEnc != nil
+//@   ensures[C17:armed] carm(client) && cdial(client)
+//@ func mail.Client.auth
+//@   requires[C17:armed] carm(client) && client.didHello
+//@   ensures[C17:hello] client.didHello
+//@ func mail.Client.DialToSMTPClientWithContext (ctxDial) (client, err)
+//@   requires[C17:wf] c != nil
+//@   ensures[C17:armed] err == nil ==> carm(client) && cdial(client)
+//@ func mail.Client.checkConn
+//@   requires[C17:hist] client != nil ==> cdial(client)
+//@   ensures[C17:armed] r0 == nil ==> carm(client)
+//@   ensures[C17:kept] client != nil ==> cdial(client) && (old(carm(client)) ==> carm(client))
+//@ func mail.Client.ResetWithSMTPClient
+//@   requires[C17:hist] client != nil ==> cdial(client)
+//@   ensures[C17:kept] client != nil ==> cdial(client) && (old(carm(client)) ==> carm(client))
+//@ func mail.Client.SendWithSMTPClient
+//@   requires[C17:hist] client != nil ==> cdial(client)
+//@   ensures[C17:kept] client != nil ==> cdial(client) && (old(carm(client)) ==> carm(client))
+//@   loop 1 invariant[C17:armed] carm(client) && cdial(client)
+//@ func mail.Client.sendSingleMsg
+//@   requires[C17:armed] carm(client) && cdial(client)
+//@   ensures[C17:armed] carm(client) && cdial(client)
+//@ at mail.Client.sendSingleMsg mail.Msg.WriteTo#1 before assert[C17:armed-during-data] carm(client)
+//@ at mail.Client.sendSingleMsg io.Closer.Close#1 before assert[C17:armed-at-end-of-data] carm(client)
+//@ func mail.Client.CloseWithSMTPClient
+//@   requires[C17:armed] client != nil ==> carm(client)
+//@ func mail.Client.DialAndSendWithContext
+//@   requires[C17:wf] c != nil
+//@ func mail.Client.DialAndSendWithContext$1
+//@   requires[C17:armed] client != nil ==> carm(client)
+//@ func mail.Client.Send
+//@   requires[C17:hist] c != nil && (c.smtpClient != nil ==> cdial(c.smtpClient))
+//@ func mail.Client.Reset
+//@   requires[C17:hist] c != nil && (c.smtpClient != nil ==> cdial(c.smtpClient))
+//@ func mail.Client.DialWithContext
+//@   requires[C17:wf] c != nil
+//@   ensures[C17:hist] r0 == nil ==> c.smtpClient != nil && cdial(c.smtpClient)
